@@ -19,7 +19,8 @@ RULE = ("A history = up to 12 (thorough 30) generated steps executed in ONE fres
         "chosen stage (syntax error after several declarations; undefined name late in the script; failure inside a loop body; "
         "failure inside an included file; tdm script failing after its p-arrays); load a probe script whose target/type options and "
         "body mention names from a deliberately tiny shared pool (n x A i p0 a) so that leftovers collide; load from files with "
-        "includes (relative paths, rewritten between steps at the same path); mutate a previously returned program. Oracle: the "
+        "includes (relative paths, rewritten between steps at the same path); load a very long sum or deeply nested brackets (loads or "
+        "exhausts the recursion limit -- the same either way); mutate a previously returned program. Oracle: the "
         "outcome of every load (canonical program content, or exception type + message) must equal the outcome of the same call "
         "executed alone in another process forked from the zygote; after every step all programs returned earlier must be unchanged "
         "unless the machine itself mutated them. Non-trivial = a failed load followed later by a probe/valid script mentioning a name "
@@ -183,7 +184,17 @@ def posixpath_basename(p):
 
 @st.composite
 def step(draw):
-    k = draw(st.sampled_from(["valid", "valid", "registers", "registers", "template", "failing", "failing", "failing", "probe", "probe", "probe", "files", "files", "files", "mutate", "mutate"]))
+    k = draw(st.sampled_from(["valid", "valid", "registers", "registers", "template", "failing", "failing", "failing", "probe", "probe", "probe", "files", "files", "files", "mutate", "mutate", "deep"]))
+    if k == "deep":
+        # very long sums / deeply nested brackets: whether they load or exhaust the interpreter's recursion limit must not
+        # depend on what was loaded before (sizes stay clear of the limit itself, which lies near 950 terms)
+        if draw(st.booleans()):
+            n = draw(st.sampled_from([300, 600, 1500, 2500, 3200, 4200, 5500]))
+            e = "+".join(["1"] * n)
+        else:
+            n = draw(st.sampled_from([20, 60, 400, 1200]))
+            e = "(" * n + "1" + ")" * n
+        return {"kind": "loads", "text": "name deep\nversion 1.0\nfloat x = %s\nG(x) | 0\n" % e, "role": "deep-expression"}
     if k == "valid":
         c = draw(st.integers(0, 4))
         if c == 0:
